@@ -498,6 +498,12 @@ def multi_body(case, ctx, tmp):
         fns = [fns[j] for j in order_]
         singles = [singles[j] for j in order_]
         specs = [specs[j] for j in order_]
+    if not use_glob and nf == 2 and mode != 'concat-keys' and rng.random() < 0.2:
+        # one path listed twice (a climatology tiled over several years): every listed file is read and joined, in the order given
+        j_ = rng.randrange(nf)
+        fns.append(fns[j_]); singles.append(singles[j_]); specs.append(specs[j_])
+        nf += 1
+        ctx.outcomes['multifile-reads-with-a-repeated-path'] += 1
     farg = os.path.join(tmp, "*.nc") if use_glob else list(fns)
     if mode.startswith('stack'):
         keys = rng.choice([None, rng.sample(['p', 'q', 'r'], nf)])
